@@ -133,8 +133,9 @@ impl<T: Qcow2IoOps> Qcow2Dev<T> {
                 MappingSource::Compressed => {
                     if let Some(off) = mapping.cluster_offset {
                         let start = off >> info.cluster_bits();
-                        let end = (off + (mapping.compressed_length.unwrap() as u64))
-                            >> info.cluster_bits();
+                        // the last byte of the compressed data, not the byte after it
+                        let len = std::cmp::max(mapping.compressed_length.unwrap() as u64, 1);
+                        let end = (off + len - 1) >> info.cluster_bits();
                         for off in start..=end {
                             Self::add_used_cluster_to_set(ranges, off);
                         }
